@@ -700,6 +700,21 @@ def gen_config(rng, idx):
                 h2["arbitrary-fields"] = "false"
                 sec["handlers"].insert(sec["handlers"].index(h1) + 1, h2)
                 break
+    if rng.random() < 0.15:
+        # the same style and format in two handler sections that differ in their date format only
+        hs = [h for sec in cfg for h in sec["handlers"]]
+        if len(hs) >= 2:
+            h1, h2 = rng.sample(hs, 2)
+            style = rng.choice(["classic", "format", "template", "safe-template"])
+            fmt = {"classic": "%(asctime)s %(message)s", "format": "{asctime} {message}",
+                   "template": "${asctime} ${message}", "safe-template": "${asctime}|${message}"}[style]
+            for h, df in ((h1, "%H:%M"), (h2, rng.choice(["%Y", None]))):
+                h["style"], h["format"] = style, fmt
+                h.pop("arbitrary-fields", None)
+                if df is None:
+                    h.pop("dateformat", None)
+                else:
+                    h["dateformat"] = df
     # two live handlers on one file (each is a handler of its own: reopened, closed, counted)
     fileh = [h for sec in cfg for h in sec["handlers"] if h["path"] == "FILE" and ref_handler(h) == "file"]
     if len(fileh) >= 2 and rng.random() < 0.5:
